@@ -29,6 +29,68 @@ def parents_of(root):
     return par
 
 
+def optional_device_attrs(ctx):
+    """Device attributes that hold None after a *valid* response omitted an optional field: response attributes left at their
+    None default on some return path of a parser (or produced by a helper that can return None), followed through
+    _update_state's plain copies.  They are peer-controlled and possibly None wherever the device object uses them."""
+    from ..ctor import init_attrs
+    from ..facts import call_is, strip
+    from ..terms import subterms, summarize
+    prog = ctx.prog
+    out = {}
+    us = prog.func(f"{AC}._update_state")
+    uss = summarize(prog, us)
+    rp, sp = us.params[1], us.params[0]
+    final = None
+    for _pc, _t, _n, rst in uss.returns:
+        final = rst
+    for cname in ("StateResponse", "HumidityResponse", "EnergyUsageResponse"):
+        cq = f"msmart.device.AC.command.{cname}"
+        if cq not in prog.classes:
+            continue
+        c = prog.classes[cq]
+        defaults = init_attrs(prog, c)
+        pf = c.methods.get("_parse")
+        if pf is None:
+            continue
+        ps = summarize(prog, pf)
+        opt = set()
+        for attr, dv in defaults.items():
+            if dv != ("const", None):
+                continue
+            for _pc, _t, _n, rst in ps.returns:
+                v = rst.env.get(f"{pf.params[0]}.{attr}")
+                if v is None:
+                    opt.add(attr)
+                    continue
+                for x in subterms(v):
+                    if x == ("const", None):
+                        opt.add(attr)
+                    if x[0] == "call" and x[1][0] == "func" and x[1][1] in prog.funcs:
+                        rt = summarize(prog, prog.funcs[x[1][1]]).return_term()
+                        if any(y == ("const", None) for y in subterms(rt)):
+                            opt.add(attr)
+        if final is None:
+            continue
+        for k, v in final.env.items():
+            if not k.startswith(sp + "."):
+                continue
+            for x in subterms(v):
+                if x[0] == "attr" and x[1] == ("param", rp) and x[2] in opt:
+                    # only plain copies keep the None (conditional expressions / calls are analysed where they occur)
+                    leaves = []
+
+                    def lv(t):
+                        if t[0] == "ite":
+                            lv(t[2]), lv(t[3])
+                        else:
+                            leaves.append(strip(t))
+                    lv(v)
+                    if ("attr", ("param", rp), x[2]) in leaves:
+                        out[(AC, k.split(".", 1)[1])] = Val(taint=True, kind="int", may_none=True)
+    return out
+
+
 def run(ctx):
     prog = ctx.prog
     ctx.explanation = ("interprocedural may-raise analysis with taint, value kinds and length facts from the five public operations "
@@ -36,7 +98,9 @@ def run(ctx):
                        "can return; allowed escape set = empty")
     ctx.trusted = ["library model (sa/libmodel.py)", "CPython exception hierarchy"]
     frames = Val(taint=True, kind="list", elem=Val(taint=True, kind="bytes"))
-    cfg = Config(ret_sources={SEND: frames})
+    optional = optional_device_attrs(ctx)
+    ctx.extra["device_attributes_that_may_be_None_after_a_response"] = sorted(a for _c, a in optional)
+    cfg = Config(ret_sources={SEND: frames}, stop_at=["msmart.lan.LAN.send"], self_attr_vals=optional)
     R = Raises(prog, cfg)
     seen = set()
     for b in BOUNDARIES:
